@@ -16,7 +16,9 @@ Engine traffic : registration is POSTed to the real /engine-rest route; connect/
 Isolation      : one harness per process (openpectus.aggregator.deps._server and .data.database are module singletons; both are
                  reset by __init__/close).  Everything written goes to a tempfile.mkdtemp() directory (database, web push keys,
                  a stub frontend-dist) that close() removes.  `reset_world()` empties the aggregator's maps, the dispatcher's
-                 channel map, every table and the LSP analysis cache, so one harness serves many cases.
+                 channel map, every table and the LSP analysis cache, so one harness serves many cases.  State the harness
+                 does not know about (e.g. a module-level cache added to a router) survives reset_world(); a property that
+                 wants its cases independent of each other gives every world its own engine/run ids (h.world_serial).
                  NOT fork safe while open (the portal is a thread): open it inside the worker, close it before forking.
 """
 from __future__ import annotations
@@ -116,6 +118,7 @@ class ApiHarness:
         self._tmp = tempfile.mkdtemp(prefix="api_h_")
         self._seq: dict[str, int] = {}
         self._chan_serial = 0
+        self.world_serial = 0        # number of reset_world() calls: lets a property give every world its own ids
         self.channels: dict[str, FakeEngineChannel] = {}
         self.identity: dict[str, Any] = {"roles": set(), "id": None, "name": "Anon"}
         _ACTIVE = self
@@ -232,6 +235,7 @@ class ApiHarness:
             raw.close()
         self.channels.clear()
         self._seq.clear()
+        self.world_serial += 1
         self.now = float(self.T0)
         self.identity = {"roles": set(), "id": None, "name": "Anon"}
 
